@@ -1,10 +1,103 @@
-import Wl2kVerif.B2F.Session
+import Wl2kVerif.Proofs.SessionSafe
+import Wl2kVerif.Proofs.LzDecode
+import Wl2kVerif.Proofs.FrameRT
+import Wl2kVerif.Props.C08
+import Wl2kVerif.Props.C08_reader
 /-
 C04 — a transfer damaged in transit is never delivered as a good message.
-CRC theorems (burst detection, `adjacent_pair_caught`, the straddling-header counterexample) are in
-Props/C04_crc.lean (same namespace). This file holds the frame-level theorems.
+CRC theorems (any two-adjacent-byte error burst changes the CRC, `adjacent_pair_caught`, and the
+straddling-header counterexample) are in Props/C04_crc.lean (same namespace). This file holds the
+session/frame-level theorems.
 -/
 namespace Wl2k.Props.C04
-open Wl2k Wl2k.B2F
+open Wl2k Wl2k.B2F Wl2k.Lzhuf
+
+/-- **Whatever is handed to the inbound handler passed the decompressor's integrity verdict** — in
+EVERY run of `Exchange`, under any remote byte stream and any handler: each `ProcessInbound(data)` call
+has `data = ` the bytes a B2 Reader returned for some received payload `cdata`, read to EOF, with
+`Close() = nil`. -/
+theorem deliver_implies_verdict {H : Type} (hstep : H → Call → H × Reply) (c : Cfg) (fuel : Nat)
+    (input : Bytes) (h : H) :
+    ∀ e ∈ (Proc.run hstep (exchange c fuel) input h []).2.2.2, ∀ data, e = .called (.processInbound data) →
+      ∃ cdata d ns, Reader.new true cdata = .ok d ∧ (readsWith d ns).1.close = none ∧ data = (readsWith d ns).2 := by
+  intro e he data hcall
+  have := (run_safe hstep (exchange_safe c fuel) input h [] (by simp)).2 e he (.processInbound data) hcall
+  obtain ⟨cdata, hd⟩ := this
+  obtain ⟨d, ns, h1, h2, h3⟩ := lzDecode_some cdata data hd
+  exact ⟨cdata, d, ns, h1, h2, h3⟩
+
+/-- …and that verdict means: no read error, the embedded CRC-16 equals the CRC over the size field
+and every body byte the reader pulled, and the number of bytes delivered equals the declared size.
+(PARTIAL w.r.t. the property: the CRC covers the pulled bytes, not necessarily a tail the reader never
+pulled — known finding C08:crc-ignores-unread-tail.) -/
+theorem verdict_means_partial (cdata : Bytes) (d : Reader) (ns : List Nat)
+    (hn : Reader.new true cdata = .ok d) (hc : (readsWith d ns).1.close = none) :
+    let d' := (readsWith d ns).1
+    d'.err = none ∧ d'.berr = false ∧
+    (d'.crc16 = true → d'.hcrc = crc (d'.sizeBytes ++ (d'.src.extract 0 d'.pulled).toList)) ∧
+    (((readsWith d ns).2.length : Int) = d.size) := by
+  have h1 := Props.C08.close_sound _ hc
+  have h2 := Props.C08.close_length true cdata d ns hn hc
+  exact ⟨h1.1, h1.2.1, h1.2.2.1, h2⟩
+
+/-- The frame checks: `readCompressed` returns a payload only if the running checksum of all data bytes
+plus the trailer byte is 0 mod 256 and the payload has exactly the proposed compressed size. -/
+theorem frame_checks (csize : Int) : ∀ (fuel : Nat) (buf : Bytes) (sum : Nat),
+    Safe (fun _ => True) (fun _ => True)
+      (fun r => ∀ d, r = .ok d → csize = (d.length : Int)) (readBlocks csize fuel buf sum) := by
+  intro fuel
+  induction fuel with
+  | zero => intro buf sum; exact Safe.panic _ trivial
+  | succ fuel ih =>
+    intro buf sum
+    unfold readBlocks
+    refine Safe.readByte _ (fun o => ?_)
+    cases o with
+    | none => exact Safe.ret _ (by intro d h; cases h)
+    | some c =>
+      simp only
+      split
+      · refine Safe.readByte _ (fun o => ?_)
+        refine Safe.bind (Q := fun _ => True) ?_ ?_
+        · have : ∀ n acc, Safe (fun _ => True) (fun _ => True) (fun _ : Option Bytes => True) (readN n acc) := by
+            intro n
+            induction n with
+            | zero => intro acc; exact Safe.ret _ trivial
+            | succ n ihn =>
+              intro acc
+              unfold readN
+              refine Safe.readByte _ (fun o => ?_)
+              cases o with
+              | none => exact Safe.ret _ trivial
+              | some b => exact ihn _
+          exact this _ _
+        · intro r _
+          cases r with
+          | none => exact Safe.ret _ (by intro d h; cases h)
+          | some blk => exact ih _ _
+      · split
+        · refine Safe.readByte _ (fun o => ?_)
+          cases o <;> simp only <;> split <;>
+            (first
+              | exact Safe.ret _ (by intro d h; cases h)
+              | (split
+                 · exact Safe.ret _ (by intro d h; cases h)
+                 · rename_i hsz
+                   exact Safe.ret _ (by
+                     intro d h
+                     cases h
+                     simpa using hsz)))
+        · exact Safe.ret _ (by intro d h; cases h)
+
+/-- Non-vacuity of the frame theorem and its converse direction: an intact frame IS accepted and
+yields exactly the payload (`Proofs.FrameRT.frame_roundtrip`, all payloads, all block sizes 1..255). -/
+theorem intact_frame_accepted {H : Type} (hstep : H → Call → H × Reply) (m : Nat) (hm1 : 1 ≤ m) (hm2 : m ≤ 255)
+    (qtitle d rest : Bytes) (hq : (0 : UInt8) ∉ qtitle) (hlen : qtitle.length + 3 < 256)
+    (p : Proposal) (hoff : p.offset = 0) (hcs : p.csize = (d.length : Int))
+    (fuel : Nat) (hfuel : qtitle.length + d.length + 4 < fuel) (h : H) (tr : List Ev) :
+    Proc.run hstep (readCompressed fuel p)
+        (frameHeader qtitle 0 ++ (frameBlocks m d).flatten ++ frameTrailer d ++ rest) h tr =
+      (.done (.ok d), rest, h, tr) :=
+  frame_roundtrip hstep m hm1 hm2 qtitle d rest hq hlen p hoff hcs fuel hfuel h tr
 
 end Wl2k.Props.C04
